@@ -201,7 +201,10 @@ pub mod model {
             if modelled() {
                 let mut i = 0;
                 while i < MAXN {
-                    if i < S.LEN && i < S.CUT && i < S.UNCLAIMED_FROM {
+                    // after an early exit the counter value at the skip says it all: everything below the cut was
+                    // claimed; without one, everything below the (prophesied) unclaimed tail
+                    let lim = if S.CUT != usize::MAX { S.CUT } else { S.UNCLAIMED_FROM };
+                    if i < S.LEN && i < lim {
                         kani::assume(S.CLAIMED[i]);
                     }
                     i += 1;
